@@ -9,58 +9,16 @@
                             vertices, between vertices and outside everything)
                      Fam    which family of elements this run enumerates
                      Shard / NShards   this process handles the elements with index = Shard mod NShards *)
-EXTENDS SPGeom, SPGeomImpl, SequencesExt, TLC
+EXTENDS GeomFamilies, SPGeomImpl, TLC
 
-CONSTANTS G, Fam, Shard, NShards
+CONSTANTS Shard, NShards
 VARIABLES kind, elem, expect
 
-Grid  == {2 * i : i \in 0..(G - 1)}
-Verts == Grid \X Grid
-BC    == (-1)..(2 * G - 1)
 ProperBoxes == {B \in BC \X BC \X BC \X BC : B[1] < B[3] /\ B[2] < B[4]}
 AllBoxes    == {B \in BC \X BC \X BC \X BC : B[1] <= B[3] /\ B[2] <= B[4]}
 BoxSeq == IF Fam \in {"point", "multipoint"} THEN SetToSeq(AllBoxes) ELSE SetToSeq(ProperBoxes)
 
-VSeqs(n) == UNION {[1..k -> Verts] : k \in 0..n}
-Canonical(ring) == \A i \in 2..(Len(ring) - 1) : ring[1][1] * 100 + ring[1][2] < ring[i][1] * 100 + ring[i][2]
-CloseRing(vs) == Append(vs, vs[1])
-SimpleRings(k) == {r \in {CloseRing(vs) : vs \in [1..k -> Verts]} : Canonical(r) /\ SimpleRing(r)}
 
-(* holed polygons: shell = the full square or the lower-left triangle of the G-grid, hole = a triangle or
-   axis-parallel square on the inner grid, wound opposite to the shell; needs G >= 5 *)
-M == 2 * (G - 1)
-Shells == { << <<0, 0>>, <<M, 0>>, <<M, M>>, <<0, M>>, <<0, 0>> >>,
-            << <<0, 0>>, <<0, M>>, <<M, M>>, <<M, 0>>, <<0, 0>> >>,
-            << <<0, 0>>, <<M, 0>>, <<0, M>>, <<0, 0>> >>,
-            << <<0, 0>>, <<0, M>>, <<M, 0>>, <<0, 0>> >> }
-Inner == {2 * i : i \in 1..(G - 2)}
-InnerRings == {r \in {CloseRing(vs) : vs \in [1..3 -> Inner \X Inner]} : SimpleRing(r)}
-InnerSquares == UNION { { << <<a, b>>, <<a + s, b>>, <<a + s, b + s>>, <<a, b + s>>, <<a, b>> >>,
-                          << <<a, b>>, <<a, b + s>>, <<a + s, b + s>>, <<a + s, b>>, <<a, b>> >> }
-                        : <<a, b, s>> \in {t \in Inner \X Inner \X {2, 4} : t[1] + t[3] < M /\ t[2] + t[3] < M} }
-Holed1 == {p \in {<<s, h>> : s \in Shells, h \in (InnerRings \cup InnerSquares)} : ValidPolygon(p)}
-Holed2 == {p \in {<<s, h1, h2>> : s \in Shells, h1 \in InnerSquares, h2 \in InnerSquares} : ValidPolygon(p)}
-
-(* two-part shapes: small triangles / squares placed far apart, touching at a vertex, sharing an edge,
-   and a part inside the other's hole *)
-SmallPolys == {<<r>> : r \in SimpleRings(3)}
-PolyPairs == {<<a, b>> : a \in {p \in SmallPolys : p[1][1] = <<0, 0>>}, b \in SmallPolys}
-
-Elements ==
-    CASE Fam = "point"      -> {<<"point", El(<< << <<v>> >> >>)>> : v \in Verts \cup {<<NaN, NaN>>}} \cup {<<"point", NULL>>}
-      [] Fam = "multipoint" -> {<<"multipoint", El(<< <<vs>> >>)>> : vs \in VSeqs(2)} \cup {<<"multipoint", NULL>>}
-      [] Fam = "line"       -> {<<"line", El(<< <<vs>> >>)>> : vs \in VSeqs(3)} \cup {<<"line", NULL>>}
-      [] Fam = "line4"      -> {<<"line", El(<< <<vs>> >>)>> : vs \in [1..4 -> Verts]}
-      [] Fam = "multiline"  -> {<<"multiline", El(<< <<a, b>> >>)>> : a \in [1..2 -> Verts], b \in VSeqs(2)}
-                               \cup {<<"multiline", El(<< <<>> >>)>>, <<"multiline", NULL>>}
-      [] Fam = "polygon"    -> {<<"polygon", El(<< <<r>> >>)>> : r \in SimpleRings(3) \cup SimpleRings(4)}
-                               \cup {<<"polygon", El(<< <<>> >>)>>, <<"polygon", NULL>>}
-      [] Fam = "holed"      -> {<<"polygon", El(<<p>>)>> : p \in Holed1 \cup Holed2}
-      [] Fam = "multipolygon" -> {<<"multipolygon", El(pp)>> : pp \in PolyPairs}
-                               \cup {<<"multipolygon", El(<<>>)>>, <<"multipolygon", NULL>>}
-      [] Fam = "holedmulti" -> {<<"multipolygon", El(<<p, <<h>>>>)>> : p \in Holed1, h \in InnerSquares}
-
-ElemSeq == SetToSeq(Elements)
 Code(v) == IF v = "T" THEN 1 ELSE IF v = "F" THEN 0 ELSE 2
 
 ASSUME PrintT(<<"BOXSEQ", BoxSeq>>)
